@@ -318,6 +318,18 @@ var c08Ops = func() []c08Op {
 		w.AnonImport("a/f")
 		return true
 	})
+	add("Anon(b/f)-if-unobserved", func(w *c08World) bool {
+		if _, seen := w.observed["b/f"]; seen {
+			return false
+		}
+		for _, r := range w.Refs {
+			if r.Path == "b/f" && r.Wrapper != "fragment" {
+				return false
+			}
+		}
+		w.AnonImport("b/f")
+		return true
+	})
 	add("ImportAlias(s/lash/,.)", func(w *c08World) bool { w.Alias("s/lash/", "."); return true })
 	add("Anon(C)-if-unreferenced", func(w *c08World) bool {
 		if _, seen := w.observed["C"]; seen {
@@ -526,6 +538,7 @@ func c08FileLevel(r *ev.Recorder, depth int) {
 		names = append(names, o.name)
 	}
 	res := statespace.Search(statespace.System{
+		Tick:   r.Tick,
 		NumOps: len(c08FileOps), MaxDepth: depth, Stop: r.Expired,
 		Step: func(hist []int) (string, bool) {
 			return imp.Key(c08FileBuild(hist, true)), true
@@ -581,6 +594,7 @@ func runC08(r *ev.Recorder) {
 		"histories longer than the depth bound are outside the bound"}
 	var mu sync.Mutex
 	res := statespace.Search(statespace.System{
+		Tick:   r.Tick,
 		NumOps: len(c08Ops), MaxDepth: depth, Stop: r.Expired,
 		Step: func(hist []int) (string, bool) {
 			w, ok := c08Build(hist)
